@@ -124,6 +124,7 @@ func main() {
 	outputs := map[string]string{}
 	outputs["Consts.lean"] = genConsts(g)
 	outputs["MappingTables.lean"] = genMappingTables(g)
+	outputs["QueryDispatch.lean"] = genDispatch(g)
 
 	if len(g.errs) > 0 {
 		sort.Strings(g.errs)
